@@ -504,3 +504,40 @@ func (c *Ctx) isLoopCtx(m *reconnModel, v ssa.Value) bool {
 	}
 	return val != nil && c.Resolve(v) == val
 }
+
+// ruleLoopOutlivesConnectCtx: once the first connection is established the reconnect loop must stop depending on the context
+// its caller passed to Connect (callers cancel or let expire that context as soon as Connect has returned): the context the
+// loop dials with is a variable that the once-only first-success block rebinds to context.Background(). Without the
+// rebinding the first connection loss after the caller's context has ended stops the loop for good.
+func (c *Ctx) ruleLoopOutlivesConnectCtx(rr *RuleRep) {
+	m, why := c.reconnModel()
+	if m == nil {
+		rr.Lost("reconnect-loop", "%s", why)
+		return
+	}
+	key := FuncName(m.F) + "/outlives-connect-ctx"
+	cell, _ := c.loopCtxCell(m)
+	if cell == nil {
+		rr.Bad(key, m.Dial.Pos(), "the reconnect loop dials with a context that is never replaced: after the first connection it still depends on the context passed to Connect, and stops redialling once that context has ended")
+		return
+	}
+	for _, st := range c.cellStores[cell] {
+		call, _ := c.asCall(st.Val)
+		if call == nil || !isStdCall(&call.Call, "context", "Background") {
+			continue
+		}
+		inOnce := false
+		for _, mc := range c.makeClosures[st.Parent()] {
+			for _, uu := range *mc.Referrers() {
+				if k, ok := uu.(*ssa.Call); ok && isStdCall(&k.Call, "sync", "Do") {
+					inOnce = true
+				}
+			}
+		}
+		if inOnce {
+			rr.OK(key, st.Pos(), "the context the loop dials with is rebound to context.Background() in the once-only first-success block")
+			return
+		}
+	}
+	rr.Bad(key, m.Dial.Pos(), "the context the reconnect loop dials with is never rebound to context.Background() after the first success: once the context passed to Connect has ended, the next connection loss stops the loop and accepted requests are never carried out")
+}
